@@ -40,6 +40,7 @@ fn main() {
         tier = "quick".into();
     }
     xtv::run::install_quiet_panic_hook();
+    xtv::procmon::no_core_dumps();
     if cmd == "selfcheck" {
         match xtv::selfcheck::run(seed, 20000) {
             Ok(n) => {
